@@ -29,6 +29,10 @@ def run(ctx):
     gl = ctx.tlc("MC_Iface", "Gen_Iface.cfg", workers=1, timeout=1500, constants={"MaxOps": 3 if q else 4, "V": '{"l1", "l2"}', "M": "<- ML", "Kinds": '{"stub"}', "Args": "{7}"},
                  tag="all histories over two same-named function-local interface types")
     behs += ctx.behaviours(gl)
+    # sequenced stubs on interface methods (As(f).Returns(r1, r2): the first call r1, every later one r2 - C05 for interface mocks)
+    gs = ctx.tlc("MC_Iface", "Gen_Iface.cfg", workers=1, timeout=1500, constants={"MaxOps": 4 if q else 5, "V": '{"i1"}', "M": "<- M1a", "Kinds": '{"seq"}', "Args": "{7}"},
+                 tag="all histories with sequenced stubs, one variable")
+    behs += [b for b in ctx.behaviours(gs) if sum(1 for x in b if x["op"] == "Call") >= 2]
     s = ctx.tlc("MC_Iface", "Sim_Iface.cfg", workers=1, timeout=1500, simulate="num=%d" % (400 if q else 6000), depth=14,
                 tag="random histories: 3 variables (2 types), 2 builders, Drop/GC at TLC-chosen points")
     behs += ctx.behaviours(s)
